@@ -10,6 +10,9 @@ def gen_ast(rnd, i, rich=True):
     name = "t%d" % i
     ncols = rnd.choice([1, 2, 2, 3, 3, 4])
     names = ["a", "b", "c", "d"][:ncols]
+    if rnd.random() < 0.12:
+        # identifiers SQLite accepts bare: letters beyond ASCII
+        names[rnd.randrange(ncols)] = rnd.choice(["é", "ñame", "日本", "aé", "ü_1"])
     wr = rnd.random() < 0.25
     cols = []
     pk_col = None
@@ -41,6 +44,8 @@ def gen_ast(rnd, i, rich=True):
         if rnd.random() < 0.15 and not any(c["k"] == "unique" for c in cons):
             cons.append({"k": "unique"})
         rnd.shuffle(cons)
+        if not n.isascii() and n != pk_col and rnd.random() < 0.6:
+            typ, cons = "", []           # a bare non-ASCII name directly followed by ',' or ')'
         cols.append({"name": n, "type": typ, "isint": typ.upper() == "INTEGER", "cons": cons})
     tcons = []
 
@@ -85,6 +90,8 @@ def tla_ast(ast):
             return {"k": "pk", "desc": c["desc"], "autoinc": c["autoinc"]}
         if c["k"] == "collate":
             return {"k": "collate", "c": c["c"]}
+        if c["k"] == "default" and c["v"] == "NULL":
+            return {"k": "defaultnull"}      # indistinguishable from "no default" in the parser's report (nil)
         return {"k": c["k"]}
     return {"name": ast["name"], "wr": ast["wr"],
             "cols": [{"name": c["name"], "isint": c["isint"], "cons": [cons(k) for k in c["cons"]]} for c in ast["cols"]],
